@@ -620,33 +620,45 @@ def lastByEnd : List Ent → Option Ent
     | none => some e
     | some b => if b.start + b.len ≥ e.start + e.len then some b else some e
 
+/-- `_match_within_next_affix_regex(source, duration, True)` when it yields a token. -/
+def mdWithin (f : MdFact) : Option Tok :=
+  match f.within with
+  | some c => if c.succ && f.withinDate then some ⟨c.idx, f.dur.start + f.dur.len⟩ else none
+  | none => none
+
+def cmIdx (c : Option CM) : Int :=
+  match c with
+  | some c => if c.succ then c.idx else -1
+  | none => -1
+
+/-- `index`: the past prefix, else the future prefix, else `-1`. -/
+def mdIndex (f : MdFact) : Int := if cmIdx f.past < 0 then cmIdx f.future else cmIdx f.past
+
+/-- the prefix branch (`index >= 0`). -/
+def mdPrefix (f : MdFact) (index : Int) : List Tok :=
+  if !f.numsInPrefix.isEmpty && !f.numInDuration then
+    match lastByEnd f.numsInPrefix with
+    | some l => if l.start + l.len == f.prefixLen then [⟨l.start, f.dur.start + f.dur.len⟩] else []
+    | none => []
+  else [⟨index, f.dur.start + f.dur.len⟩]
+
+def mdSufTok (f : MdFact) (c : Option CM) : Option Tok :=
+  match c with
+  | some c => if c.succ then some ⟨f.dur.start, f.dur.start + f.dur.len + c.idx + c.len⟩ else none
+  | none => none
+
+/-- the suffix branch. -/
+def mdSuffix (f : MdFact) : List Tok :=
+  match mdSufTok f f.pastSuffix with
+  | some t => [t]
+  | none => match mdSufTok f f.futureSuffix with | some t => [t] | none => []
+
 def matchDurationOne (f : MdFact) : List Tok :=
-  let stop := f.dur.start + f.dur.len
   if f.emptySide then []
   else
-    let withinTok : Option Tok :=
-      match f.within with
-      | some c => if c.succ && f.withinDate then some ⟨c.idx, stop⟩ else none
-      | none => none
-    let succIdx (c : Option CM) : Int := match c with | some c => if c.succ then c.idx else -1 | none => -1
-    match withinTok with
+    match mdWithin f with
     | some t => if t.start ≥ 0 then [t] else []   -- (a negative start falls through in the code; unreachable: idx ≥ 0)
-    | none =>
-      let index : Int := if succIdx f.past < 0 then succIdx f.future else succIdx f.past
-      if index ≥ 0 then
-        if !f.numsInPrefix.isEmpty && !f.numInDuration then
-          match lastByEnd f.numsInPrefix with
-          | some l => if l.start + l.len == f.prefixLen then [⟨l.start, stop⟩] else []
-          | none => []
-        else [⟨index, stop⟩]
-      else
-        let suf (c : Option CM) : Option Tok :=
-          match c with
-          | some c => if c.succ then some ⟨f.dur.start, stop + c.idx + c.len⟩ else none
-          | none => none
-        match suf f.pastSuffix with
-        | some t => [t]
-        | none => match suf f.futureSuffix with | some t => [t] | none => []
+    | none => if mdIndex f ≥ 0 then mdPrefix f (mdIndex f) else mdSuffix f
 
 /-- `BaseDatePeriodExtractor.match_duration`. -/
 def matchDuration (fs : List MdFact) : List Tok := fs.flatMap matchDurationOne
